@@ -153,6 +153,12 @@ func run(o hx.RunOpts) error {
 	}
 	kinds2 := []string{"m", "m", "t0", "t5", "t17", "t18", "c", "k"}
 	mixes := o.N(8, 30)
+	if v == "orig" && o.Thorough() {
+		// on the pinned tree most damaged cases kill the child; every death costs a process start, so the
+		// thorough tier is scaled down there (the kinds of outcome are all reached long before)
+		mixes = 8 * o.Scale
+		s.Rep.Notes = append(s.Rep.Notes, "variant orig: thorough tier scaled down to 8 kind mixes per subset (each crash of the child costs a process start)")
+	}
 	for _, cfg := range ecx.Configs(o.Thorough()) {
 		d, par := cfg[0], cfg[1]
 		n := d + par
